@@ -20,8 +20,12 @@ RULE = ('(1) exhaustive: every history of <= 4 appends over a 7-item alphabet of
         'a,b,c,b1 at worlds 0-3), with a copy taken after every prefix and diverging appends on the copy; '
         '(2) Hypothesis rule-based state machine over the Branch API (append sentence node, append access node, copy, '
         'continue on any copy), up to 30 steps; (3) whole proofs of random first-order / modal arguments in random '
-        'logics with Branch.new_constant / new_world wrapped by the harness. Oracle: the returned constant / world '
-        'does not occur in any node of that branch, computed by walking the nodes. Non-trivial = a history in which '
+        'logics, stepped, with Branch.new_constant / new_world wrapped by the harness and every step compared with a snapshot of the '
+        'branch taken before it. Oracle: the returned constant / world '
+        'does not occur in any node of that branch, computed by walking the nodes; and every witness step -- a step that consumes '
+        '(ticks) a quantified node and instantiates it with a constant not in that node, or consumes a modal node / is the Serial rule '
+        'and adds an access node leading out of the node\'s world -- uses a constant / world that did not occur on the branch before '
+        'the step, whether or not the rule asked the branch for it. Non-trivial = a history in which '
         'a constant that sorts before an earlier one is appended, or a copy followed by divergent appends; or a proof '
         'that instantiates at least one witness. Distinct by history / (logic, argument).')
 ASSUMPTIONS = ['the walk over node sentences (vf/ast.py from_lib + constants) is the reference for "occurs on the branch"']
@@ -275,21 +279,98 @@ class Monitor:
         self.Branch.new_constant, self.Branch.new_world = self.orig_c, self.orig_w
 
 
+def _quantified_or_modal(s):
+    "('Q' | 'M' | None) for a sentence AST that is a (negated / asserted ...) quantified or modal sentence at the top."
+    x = s
+    while x[0] == 'O' and x[1] in ('Negation', 'Assertion'):
+        x = x[2][0]
+    if x[0] == 'Q':
+        return 'Q'
+    if x[0] == 'O' and x[1] in ('Possibility', 'Necessity'):
+        return 'M'
+    return None
+
+
+def witness_violations(tab_entry, before, desc):
+    """The step just applied (history entry) against the snapshot taken before it ({branch: (nodes, consts, worlds)}).
+    A step is a *witness step* when it consumed (ticked) a quantified node and its additions mention a constant that
+    is not in that node's sentence, or consumed a modal node / is the Serial rule and its additions contain an access node
+    leading out of the node's world: the constant / the world reached must not have occurred on the branch before."""
+    out = []
+    entry = tab_entry
+    tgt = entry.target
+    if entry.rule is None or tgt is None:
+        return out
+    branch = tgt.get('branch')
+    node = tgt.get('node')
+    if branch is None:
+        return out
+    # the branch the rule fired on may have been extended itself, and forked into children that copy it
+    snap = before.get(id(branch))
+    if snap is None:
+        return out
+    n0, consts0, worlds0 = snap
+    rname = type(entry.rule).__name__
+    tab = entry.rule.tableau
+    grown = [b for b in tab if id(b) == id(branch) or (id(b) not in before and getattr(b, 'parent', None) is branch)]
+    s = node.get('sentence') if node is not None else None
+    kind = _quantified_or_modal(A.from_lib(s)) if s is not None else None
+    ticked = node is not None and any(b.is_ticked(node) for b in grown)
+    for b in grown:
+        added = list(b)[n0:]
+        if kind == 'Q' and ticked:
+            tconsts = A.constants(A.from_lib(s))
+            mentioned = set()
+            for n in added:
+                x = n.get('sentence')
+                if x is not None:
+                    mentioned |= A.constants(A.from_lib(x))
+            new = mentioned - tconsts
+            if new and not (new - consts0):
+                out.append(('C06|witness-not-fresh|constant', f'{desc}: step {len(tab.history)} {rname} consumed {A.std(A.from_lib(s))} and instantiated it '
+                            f'with {sorted(map(A.std, new))}, already on the branch (constants before: {sorted(map(A.std, consts0))})'))
+        if (kind == 'M' and ticked) or rname == 'Serial':
+            w = node.get('world') if node is not None else None
+            for n in added:
+                w1, w2 = n.get('world1'), n.get('world2')
+                if w1 is None or w2 is None:
+                    continue
+                if (rname == 'Serial' or w1 == w) and w2 in worlds0:
+                    out.append(('C06|witness-not-fresh|world', f'{desc}: step {len(tab.history)} {rname} added access {w1}->{w2} as a witness, '
+                                f'but world {w2} already occurs on the branch (worlds before: {sorted(worlds0)})'))
+    return out
+
+
 def check_proof(case):
     logic, prem, con = prover.case_args(case)
+    desc = prover.case_str(case)
+    witness = []
     with Monitor() as mon:
         try:
-            prover.build(logic, prem, con, group=case.get('group', True), rank=case.get('rank', True),
-                         order=case.get('order', 0), max_steps=case.get('max_steps', 150))
+            tab = prover.make_tableau(logic, prem, con, group=case.get('group', True), rank=case.get('rank', True),
+                                      order=case.get('order', 0), max_steps=case.get('max_steps', 150))
+            while not tab.finished:
+                before = {}
+                for b in tab.open:
+                    c, w = walk(b)
+                    before[id(b)] = (len(b), c, w)
+                entry = tab.step()
+                if entry is None:
+                    break
+                witness += witness_violations(entry, before, desc)
         except Exception as e:
             # build errors belong to C09; here only freshness is judged
-            return [], mon.calls
+            pass
     out = []
     seen = set()
     for fp, d in mon.violations:
         if fp not in seen:
             seen.add(fp)
-            out.append((fp, f'{prover.case_str(case)}: {d}'))
+            out.append((fp, f'{desc}: {d}'))
+    for fp, d in witness:
+        if fp not in seen:
+            seen.add(fp)
+            out.append((fp, d))
     return out, mon.calls
 
 
